@@ -23,7 +23,7 @@ import subprocess
 import sys
 import time as _real_time
 
-from .. import boot, canon, pool
+from .. import boot, canon, findings, pool
 from .. import c08_model as model
 from .. import c08_battery as battery
 
@@ -37,12 +37,19 @@ MODES = ('path', 'none')
 # depth-3 (quick) / depth-4 (thorough) sub-alphabet: the events that change what names mean
 CORE7 = ('rename_def', 'change_params', 'del_body', 'paste', 'type', 'undo', 'wait4')
 
+_B = tuple(model.BASES)
+# levels, simplest first: (name, [(base, alphabet name, depth), ...])
 PLANS = {
-    # (base, alphabet name, depth)   simplest first
-    'quick': [(b, 'Q13', d) for d in (1, 2) for b in model.BASES] + [('funcs', 'CORE7', 3)],
-    'thorough': [(b, 'Q13', d) for d in (1, 2, 3) for b in model.BASES]
-                + [(b, 'ALL28', d) for d in (1, 2) for b in model.BASES]
-                + [('funcs', 'CORE7', 4)],
+    'quick': [('depth1/13 events', [(b, 'Q13', 1) for b in _B]),
+              ('depth2/13 events', [(b, 'Q13', 2) for b in _B]),
+              ('depth3/core 7 events/funcs', [('funcs', 'CORE7', 3)])],
+    'thorough': [('depth1/28 events', [(b, 'ALL28', 1) for b in _B]),
+                 ('depth2/13 events', [(b, 'Q13', 2) for b in _B]),
+                 ('depth3/13 events', [(b, 'Q13', 3) for b in _B]),
+                 ('depth2/28 events/mixed', [('mixed', 'ALL28', 2)]),
+                 ('depth4/core 7 events/funcs', [('funcs', 'CORE7', 4)])],
+    'dev': [('depth1/13 events', [(b, 'Q13', 1) for b in _B]),
+            ('depth2/core 7 events/funcs', [('funcs', 'CORE7', 2)])],
 }
 ALPHABETS = {'Q13': model.QUICK_ALPHABET, 'CORE7': CORE7, 'ALL28': model.ALL_EVENTS}
 
@@ -94,9 +101,13 @@ def hist_id(base, mode, events):
 # history enumeration (pure; shared by parent, workers and replay)
 # ---------------------------------------------------------------------------------------------
 
-def plan_histories(plan):
-    """-> list of (base, events tuple, texts list) for a plan, simplest first, no duplicates."""
+def plan_histories(plan, exclude=()):
+    """-> list of (base, events tuple, texts list) for the entries of one level, no duplicates
+    and nothing an earlier level (`exclude`) already covered."""
     seen = set()
+    for base, aname, depth in exclude:
+        for events, _ in model.histories(base, ALPHABETS[aname], depth):
+            seen.add((base, events))
     out = []
     for base, aname, depth in plan:
         for events, texts in model.histories(base, ALPHABETS[aname], depth):
@@ -190,6 +201,7 @@ def run_history(ed, mode, base, events, judge=None, refs=True):
             keystrokes = []
             if ev == 'type':
                 for kt in model.typing_steps(before, base)[:-1]:
+                    s = None
                     try:
                         s = ed.script(kt, path, project)
                         ans, n = battery.cursor_answers(s, kt, root)
@@ -385,7 +397,8 @@ def _init():
 
 def task_sequence(task):
     """The ordered list of (mode, base, events) a shard task replays."""
-    hs = plan_histories([tuple(p) for p in task['plan']])
+    hs = plan_histories([tuple(p) for p in task['plan']],
+                        [tuple(p) for p in task.get('exclude', ())])
     mine = shard_histories(hs, task['seed'], task['shard'], task['nshards'])
     return [(mode, base, events) for mode in task['modes'] for base, events, _ in mine]
 
@@ -471,36 +484,147 @@ def _strict(ctx, base, text, mode, perturb):
 
 
 def run(ctx):
-    tier = ctx.tier
-    plan = PLANS[tier]
+    levels = PLANS[os.environ.get('JV_C08_PLAN') or ctx.tier]
     t_start = _real_time.time()
-    hs = plan_histories(plan)
-    # ---- oracle phase: every distinct (base, text) reachable, simplest first ------------------
-    texts = []
-    seen = set()
-    for base, events, ts in hs:
-        for t in ts:
-            if (base, t) not in seen:
-                seen.add((base, t))
-                texts.append((base, t))
     warm = warm_dir()
     env = dict(os.environ)
     env['JV_SCRATCH'] = boot.scratch_root()
     p = subprocess.run([sys.executable, '-B', '-m', 'jv.props.c08', 'warm', warm], env=env,
-                       capture_output=True, text=True, timeout=600)
+                       capture_output=True, text=True, timeout=900)
     if p.returncode != 0:
         ctx.harness_error('warm-up process failed: ' + (p.stderr or '')[-1500:])
         return
-    jobs = [{'base': b, 'text': t, 'modes': list(reversed(MODES)), 'warm': warm}
-            for b, t in texts]
-    # self-check of the oracle: the base texts again, one mode per process, empty cache dir
+    both = list(reversed(MODES))        # mode none first, then path, in one fresh interpreter
+    # self-check of the oracle on the base texts: one mode per process, empty cache directory
     checks = [{'base': b, 'text': model.BASES[b], 'modes': [m], 'strict': '%s-0' % m}
               for b in model.BASES for m in MODES]
-    jobs_all = jobs + [{'base': b, 'text': model.BASES[b], 'modes': list(reversed(MODES)),
-                        'warm': warm} for b in model.BASES if (b, model.BASES[b]) not in seen]
-    missing = _run_oracles(ctx, checks + jobs_all, 'oracles')
-    t_oracle = _real_time.time() - t_start
-    oracle_unsound = 0
+    base_jobs = [{'base': b, 'text': model.BASES[b], 'modes': both, 'warm': warm}
+                 for b in model.BASES]
+    seen_texts = {(b, model.BASES[b]) for b in model.BASES}
+    n_oracles = 1 + len(checks) + len(base_jobs)
+    tot = {'histories': 0, 'steps': 0, 'evals': 0, 'judged': 0, 'no_oracle': 0, 'not_run': 0}
+    hits, modes = {}, {}
+    vectors = set()
+    diverged, ksexc = [], []
+    unstable = 0
+    n_ksexc = 0
+    strict_used = {}
+    done_levels = []
+    exhaustive = True
+    samples = []
+    t_oracle = 0.0
+    exclude = []
+    for li, (lname, entries) in enumerate(levels):
+        if ctx.time_left() < 40:
+            exhaustive = False
+            ctx.note('level %s not started (time cap)' % lname)
+            continue
+        hs = plan_histories(entries, exclude)
+        # ---- oracle phase: every distinct (base, text) this level reaches -----------------------
+        jobs = []
+        for base, events, ts in hs:
+            for t in ts:
+                if (base, t) not in seen_texts:
+                    seen_texts.add((base, t))
+                    jobs.append({'base': base, 'text': t, 'modes': both, 'warm': warm})
+        t1 = _real_time.time()
+        extra = (checks + base_jobs) if li == 0 else []
+        n_oracles += len(jobs)
+        missing = _run_oracles(ctx, extra + jobs, 'oracles of level ' + lname)
+        t_oracle += _real_time.time() - t1
+        if li == 0:
+            _self_check(ctx, checks)
+        # ---- history phase ----------------------------------------------------------------------
+        n = pool.NPROC
+        tasks = [{'plan': [list(p) for p in entries], 'exclude': [list(p) for p in exclude],
+                  'seed': ctx.seed, 'shard': k, 'nshards': n, 'modes': list(MODES),
+                  'deadline': ctx.deadline - 15} for k in range(n)]
+        pres = pool.run(tasks, 'jv.props.c08:_work', init='jv.props.c08:_init', seed=ctx.seed,
+                        deadline=ctx.deadline, tag='c08')
+        ctx.absorb(pres, 'histories of level ' + lname)
+        mism = []
+        lv = dict.fromkeys(tot, 0)
+        for i, t in enumerate(tasks):
+            if i in pres.crashed:
+                ctx.violation('WorkerDied(exit=%s)' % pres.crashed[i],
+                              '%s:shard:%d/%d' % (lname, i, n), {'task': t}, {'task': t})
+                continue
+            r = pres.results.get(i)
+            if r is None:
+                lv['not_run'] += len(task_sequence(t))
+                continue
+            for k in lv:
+                lv[k] += r.get(k, 0)
+            for k, v in r['hits'].items():
+                hits[k] = hits.get(k, 0) + v
+            for k, v in r['modes'].items():
+                modes[k] = modes.get(k, 0) + v
+            vectors.update(r['vectors'])
+            for d in r['diverged']:
+                diverged.append(d)
+            for m in r['mism']:
+                m['task'] = t
+                mism.append(m)
+            for m in r['keystroke_exc']:
+                m['task'] = t
+                ksexc.append(m)
+        for k in tot:
+            tot[k] += lv[k]
+        unstable += _verdicts(ctx, mism, strict_used)
+        complete = not (missing or lv['not_run'] or lv['no_oracle'] or pres.skipped
+                        or pres.crashed)
+        if complete:
+            done_levels.append('%s: %d histories x %d modes, %d steps, %d new texts'
+                               % (lname, len(hs), len(MODES), lv['steps'], len(jobs)))
+        else:
+            exhaustive = False
+            ctx.note('level %s incomplete: %d oracle processes and %d histories not run (time '
+                     'cap), %d steps without oracle' % (lname, missing, lv['not_run'],
+                                                       lv['no_oracle']))
+        if hs:
+            b, ev, ts = hs[len(hs) // 2]
+            samples.append({'level': lname, 'history': hist_id(b, 'path', ev),
+                            'final_text': ts[-1]})
+        exclude += entries
+        _keystroke_verdicts(ctx, ksexc)
+        n_ksexc += len(ksexc)
+        ksexc = []
+        if findings.classify(findings.load(ID), ctx.violations)[0]:
+            if li + 1 < len(levels):
+                exhaustive = False
+                ctx.note('stopped after level %s: it produced violations (shortest '
+                         'counterexamples first); deeper levels not explored' % lname)
+            break
+    disabled = sorted({e for _, entries in levels for p in entries for e in ALPHABETS[p[1]]
+                       if e not in hits})
+    if disabled:
+        ctx.note('events never enabled: %s' % disabled)
+    ctx.coverage.update({
+        'states': tot['histories'], 'transitions': tot['steps'], 'evaluations': tot['evals'],
+        'distinct_nontrivial': len(vectors),
+        'rule': 'state = one history (event sequence x mode x base) replayed from the base text;'
+                ' transition = one event followed by a new Script and the whole battery; '
+                'evaluations = query calls; distinct_nontrivial = distinct (text, canonical '
+                'result vector) pairs observed after a step',
+        'histories_per_mode': modes, 'steps_judged': tot['judged'],
+        'distinct_texts': len(seen_texts), 'oracle_processes': n_oracles,
+        'parso_diff_parser_divergences': len(diverged),
+        'parso_divergence_samples': diverged[:10],
+        'fresh_processes_disagreeing_with_each_other': unstable,
+        'keystroke_exceptions_seen': n_ksexc,
+        'event_hits': hits, 'events_never_enabled': disabled,
+        'levels_completed': done_levels,
+        'plan': [[n_, [list(p) for p in e]] for n_, e in levels],
+        'alphabets': {k: list(ALPHABETS[k]) for k in sorted({p[1] for _, e in levels
+                                                             for p in e})},
+        'exhaustive': exhaustive,
+        'oracle_wall_s': round(t_oracle, 1), 'total_wall_s': round(_real_time.time() - t_start),
+        'samples': samples,
+    })
+    ctx.assumptions += ASSUMPTIONS
+
+
+def _self_check(ctx, checks):
     for c in checks:
         try:
             with open(oracle_file(c['base'], c['text'], c['strict'])) as f:
@@ -511,57 +635,25 @@ def run(ctx):
             continue
         d = compare(strict, fast)
         if d:
-            oracle_unsound += 1
+            again = _strict(ctx, c['base'], c['text'], c['modes'][0], 1) or {}
+            d = [x for x in d if again.get(x[0]) == x[1]]
+        if d:
             ctx.harness_error('oracle self-check: shared-process oracle differs from a '
                               'single-purpose fresh process on base %s mode %s at %s'
                               % (c['base'], c['modes'][0], d[0][0]))
-    # ---- history phase --------------------------------------------------------------------------
-    n = pool.NPROC
-    tasks = [{'plan': [list(p) for p in plan], 'seed': ctx.seed, 'shard': k, 'nshards': n,
-              'modes': list(MODES), 'deadline': ctx.deadline - 20} for k in range(n)]
-    pres = pool.run(tasks, 'jv.props.c08:_work', init='jv.props.c08:_init', seed=ctx.seed,
-                    deadline=ctx.deadline, tag='c08')
-    ctx.absorb(pres, 'histories')
-    tot = {'histories': 0, 'steps': 0, 'evals': 0, 'judged': 0, 'no_oracle': 0, 'not_run': 0,
-           'tree_reused': 0}
-    hits, modes = {}, {}
-    vectors = set()
-    diverged, mism, ksexc = [], [], []
-    for i, t in enumerate(tasks):
-        if i in pres.crashed:
-            ctx.violation('WorkerDied(exit=%s)' % pres.crashed[i], 'shard:%d/%d' % (i, n),
-                          {'task': t}, {'task': t})
-            continue
-        r = pres.results.get(i)
-        if r is None:
-            tot['not_run'] += len(task_sequence(t))
-            continue
-        for k in tot:
-            tot[k] += r.get(k, 0)
-        for k, v in r['hits'].items():
-            hits[k] = hits.get(k, 0) + v
-        for k, v in r['modes'].items():
-            modes[k] = modes.get(k, 0) + v
-        vectors.update(r['vectors'])
-        for d in r['diverged']:
-            d['task'] = i
-            diverged.append(d)
-        for m in r['mism']:
-            m['task'] = i
-            mism.append(m)
-        for m in r['keystroke_exc']:
-            m['task'] = i
-            ksexc.append(m)
-    # ---- verdicts ------------------------------------------------------------------------------
-    mism.sort(key=lambda m: (len(m['events']), m['step'], m['site'], m['seq'], m['task']))
-    strict_used = {}
+
+
+def _pre_of(m):
+    t = m['task']
+    return {'plan': t['plan'], 'exclude': t['exclude'], 'seed': t['seed'], 'shard': t['shard'],
+            'nshards': t['nshards'], 'modes': t['modes'], 'upto': m['seq']}
+
+
+def _verdicts(ctx, mism, strict_used):
+    """Turn a level's mismatches into violations; -> number set aside as oracle-unstable."""
+    mism.sort(key=lambda m: (len(m['events']), m['step'], m['site'], m['seq'],
+                             m['task']['shard']))
     unstable = 0
-
-    def pre_of(m):
-        t = tasks[m['task']]
-        return {'plan': t['plan'], 'seed': t['seed'], 'shard': t['shard'],
-                'nshards': t['nshards'], 'modes': t['modes'], 'upto': m['seq']}
-
     for m in mism:
         hid = hist_id(m['base'], m['mode'], m['events'])
         input_id = '%s#%d' % (hid, m['step'])
@@ -588,16 +680,20 @@ def run(ctx):
             confirmed = 'two single-purpose fresh interpreters (empty cache directory, second ' \
                         'with a shifted heap) give the expected value'
             if not _reproduces_alone(case, m['site']):
-                case['pre_task'] = pre_of(m)
+                case['pre_task'] = _pre_of(m)
         else:
-            case['pre_task'] = pre_of(m)
+            case['pre_task'] = _pre_of(m)
         ctx.violation(m['site'], input_id,
                       {'history': hid, 'step': m['step'], 'query': m['key'], 'text': text,
                        'expected(fresh process)': m['expected'],
                        'observed(after history)': m['observed'],
                        'other_queries_differing': m['other_keys'], 'oracle': confirmed,
                        'needs_preceding_histories_of_its_worker': 'pre_task' in case}, case)
-    # exceptions while typing: judged lazily against a fresh process for that keystroke text
+    return unstable
+
+
+def _keystroke_verdicts(ctx, ksexc):
+    """Exceptions while typing: judged lazily against a fresh process for that keystroke text."""
     for m in ksexc[:20]:
         base, mode, evs = m['history'].split(':')
         job = {'base': base, 'text': m['text'], 'modes': [mode], 'cursor': True,
@@ -619,71 +715,36 @@ def run(ctx):
                                'expected(fresh process)': e, 'observed(after history)': o},
                               {'mode': mode, 'base': base, 'events': evs.split('/'),
                                'step': m['step'], 'key': k, 'keystroke': m['text'],
-                               'pre_task': pre_of(m)})
-    exhaustive = not (missing or tot['not_run'] or tot['no_oracle'] or pres.skipped
-                      or pres.crashed)
-    if missing:
-        ctx.note('%d oracle processes not run (time cap)' % missing)
-    if tot['not_run']:
-        ctx.note('%d histories not run (time cap)' % tot['not_run'])
-    if tot['no_oracle']:
-        ctx.note('%d steps not judged: no oracle for their text' % tot['no_oracle'])
-    disabled = [e for aname in {p[1] for p in plan} for e in ALPHABETS[aname] if e not in hits]
-    if disabled:
-        ctx.note('events never enabled: %s' % sorted(set(disabled)))
-    levels = {}
-    for base, events, _ in hs:
-        levels[(base, len(events))] = levels.get((base, len(events)), 0) + 1
-    ctx.coverage.update({
-        'states': tot['histories'], 'transitions': tot['steps'], 'evaluations': tot['evals'],
-        'distinct_nontrivial': len(vectors),
-        'rule': 'state = one history (event sequence x mode x base) replayed from the base text;'
-                ' transition = one event followed by a new Script and the whole battery; '
-                'evaluations = query calls; distinct_nontrivial = distinct (text, canonical '
-                'result vector) pairs observed after a step',
-        'histories_per_mode': modes, 'steps_judged': tot['judged'],
-        'distinct_texts': len(texts), 'oracle_processes': len(checks) + len(jobs_all) + 1,
-        'parso_diff_parser_divergences': len(diverged),
-        'parso_divergence_samples': diverged[:10],
-        'fresh_processes_disagreeing_with_each_other': unstable,
-        'keystroke_exceptions_seen': len(ksexc),
-        'event_hits': hits,
-        'levels_completed': ['%s depth %d: %d histories x %d modes' % (b, d, c, len(MODES))
-                             for (b, d), c in sorted(levels.items(), key=lambda x: (x[0][1],
-                                                                                     x[0][0]))]
-        if exhaustive else [],
-        'plan': [list(p) for p in plan],
-        'alphabets': {k: list(ALPHABETS[k]) for k in sorted({p[1] for p in plan})},
-        'exhaustive': exhaustive,
-        'oracle_wall_s': round(t_oracle, 1),
-        'samples': [{'history': hist_id(b, 'path', ev), 'final_text': ts[-1][:200]}
-                    for b, ev, ts in (hs[len(hs) // 3], hs[len(hs) // 2], hs[-1])],
-    })
-    ctx.assumptions += [
-        'configuration `stubs` (vendored typeshed); jedi.cache.time and parso.cache.time are a '
-        'virtual clock starting at 2e9 s; default 0 s between Scripts, wait4/wait601 advance it; '
-        'at most one clock event per history',
-        'mode path: every history gets a directory and file never used before in the process; '
-        'the file on disk holds the base text (mtime owned) while the buffer holds the edited '
-        'text; the project is that directory.  mode none: path=None, one shared slot per '
-        'process; a worker replays its shard of histories back to back, path mode first',
-        'oracle: one fresh interpreter per (base, text) answers mode none then mode path; its '
-        'cache directory is a private copy of the stub pickles written by the first oracle '
-        'process (the buffer itself is never pickled).  Every reported mismatch is re-judged '
-        'against two single-purpose fresh interpreters (one per (mode, text), empty cache '
-        'directory, second one with a shifted heap); the base texts are cross-checked that way '
-        'on every run',
-        'steps whose incrementally re-parsed tree differs from a from-scratch parse are counted '
-        'and listed (parso_diff_parser_divergences), not judged (the property\'s proviso)',
-        'keystrokes of the typing event build a Script each and ask complete+get_signatures at '
-        'the cursor; they are judged only if they raise (then against a fresh process)',
-        'answers are compared as canonical JSON: infer/goto/help/get_references/get_signatures '
-        'as sorted lists (set semantics), completions and get_names in order',
-        'quick tier: all histories of depth <= 2 over the 13-event alphabet on 3 bases x 2 modes '
-        'and all depth-3 histories over the 7-event core alphabet on base `funcs`; thorough: '
-        'depth <= 3 over 13 events on all bases, depth <= 2 over all 28 events, depth 4 over '
-        'the core alphabet on `funcs`',
-    ]
+                               'pre_task': _pre_of(m)})
+
+
+ASSUMPTIONS = [
+    'configuration `stubs` (vendored typeshed); jedi.cache.time and parso.cache.time are a '
+    'virtual clock starting at 2e9 s; default 0 s between Scripts, wait4/wait601 advance it; '
+    'at most one clock event per history',
+    'mode path: every history gets a directory and file never used before in the process; '
+    'the file on disk holds the base text (mtime owned) while the buffer holds the edited '
+    'text; the project is that directory.  mode none: path=None, one shared slot per '
+    'process; per level a freshly forked worker replays its shard of histories back to back, '
+    'path mode first, so its path-less histories form one long history',
+    'oracle: one fresh interpreter per (base, text) answers mode none then mode path; its '
+    'cache directory is a private copy of the stub pickles written by a warm-up process '
+    '(the buffer itself is never pickled).  Every reported mismatch (first two per failure '
+    'site) is re-judged against two single-purpose fresh interpreters (one per (mode, text), '
+    'empty cache directory, the second with a shifted heap); the base texts are '
+    'cross-checked that way on every run',
+    'steps whose incrementally re-parsed tree differs from a from-scratch parse are counted '
+    'and listed (parso_diff_parser_divergences), not judged (the property\'s proviso)',
+    'keystrokes of the typing event build a Script each and ask complete+get_signatures at '
+    'the cursor; they are judged only if they raise (then against a fresh process)',
+    'answers are compared as canonical JSON: infer/goto/help/get_references/get_signatures '
+    'as sorted lists (set semantics), completions and get_names in order; completions of '
+    'names defined outside the buffer are compared by name and type only',
+    'quick tier: all histories of depth <= 2 over the 13-event alphabet on 3 bases x 2 modes '
+    'and all depth-3 histories over the 7-event core alphabet on base `funcs`; thorough: '
+    'depth 1 over all 28 events and depth <= 3 over 13 events on all bases, depth 2 over 28 '
+    'events on `mixed`, depth 4 over the core alphabet on `funcs`',
+]
 
 
 def _text_of(base, events, step):
